@@ -102,6 +102,7 @@ type Gate struct {
 	filter   func(c *Client) bool // optional: only these clients are schedulable
 	seen     map[string]bool      // controlled mode: (label, store fingerprint) pairs already executed
 	steps    int                  // controlled mode: events executed
+	lastRun  map[string]int       // controlled mode: label -> step at which it ran last
 	panicked map[string]bool      // (client, command) pairs whose mock panic has been reported (retries are not re-reported)
 }
 
